@@ -418,3 +418,139 @@ def sequential_pickle_round_trip_native(B):
         if not all(np.allclose(out[n].get_data(span), ref[n].get_data(span), equal_nan=True) for n in ("x", "z")):
             B.fail(f"{label} round trip of a Sequential model simulates differently", {"packer": label})
             return
+
+
+# ------------------------------------------------------------------------------ selecting variants
+_SELECTIONS = [slice(None), slice(1, None), slice(None, 2), slice(-2, None), slice(None, -1), slice(1, 10), slice(-10, 2), slice(None, None, 2),
+               slice(None, None, -1), slice(3, 0, -1), slice(2, 2), ..., (0,), (2, 0), [3, 3], 0, 3, -1]
+
+
+@contract("C20", targets=[PHV + "Mixin.get_variant", PHV + "_resolve_vids", PHV + "Mixin.skeleton"],
+          instances=[(i,) for i in range(len(_SELECTIONS))], cross=0)
+def selecting_variants_follows_python_indexing(K, which):
+    """model.get_variant(sel) holds exactly the variants a Python list would give for sel - a slice (open-ended,
+    negative, beyond the end, stepped, reversed, empty), the ellipsis, a list of positions, or one position - as the
+    same variant objects, in that order, in a new holder that shares the invariant."""
+    sel = _SELECTIONS[which]
+    n = 4
+    h = holder(K, n)
+    vs = list(K.items(K.attr(h, "_variants")))
+    if isinstance(sel, slice):
+        want = vs[sel]
+    elif sel is ...:
+        want = vs
+    elif isinstance(sel, int):
+        want = [vs[sel]]
+    else:
+        want = [vs[i] for i in sel]
+    g = K.method(h, "get_variant", sel)
+    got = list(K.items(K.attr(g, "_variants")))
+    K.ensure("the variants selected, in order", len(got) == len(want) and all(a is b for a, b in zip(got, want)))
+    K.ensure("a new holder with the same invariant; the source keeps its variants",
+             g is not h and K.attr(g, "_invariant") == "INV" and list(K.items(K.attr(h, "_variants"))) == vs)
+
+
+# ------------------------------------------------------------------------------ steady-state databox: every variant its own column
+from irispie.simultaneous import _steady_boxable_protocols as SBP
+import irispie.dates as _D
+
+
+class _SteadySource:
+    """harness stand-in for a multi-variant model: the array of steady paths of a variant is a function of that variant"""
+
+    def __init__(self, variants, table):
+        self._variants = variants
+        self.table = table
+
+    @property
+    def is_singleton(self):
+        return len(self._variants) == 1
+
+    def create_some_array(self, *, variant=None, deviation=False, num_columns=1, shift_in_first_column=0):
+        return self.table(variant, num_columns)
+
+    def create_qid_to_name(self):
+        return {0: "x", 1: "p"}
+
+    def create_qid_to_description(self):
+        return {0: "the variable", 1: "the parameter"}
+
+    def create_qid_to_kind(self):
+        return {0: Q.QuantityKind.TRANSITION_VARIABLE, 1: Q.QuantityKind.PARAMETER}
+
+
+@contract("C20", targets=["irispie.simultaneous._steady_boxable_protocols:generate_steady_items", "irispie.has_variants:unpack_singleton",
+                          "irispie.series.main:Series.__init__"], instances=[(1,), (2,), (3,)], cross=0, opts={"max_paths": 4000})
+def steady_items_hold_every_variant_in_its_own_column(K, nv):
+    """The steady-state items of a model with several variants: column j of every series (entry j of every parameter
+    list) comes from variant j's OWN steady state - not from the first variant repeated."""
+    T = 3
+    variants = [K.obj(SV_.Variant, levels={0: None}, changes={0: None}, solution=None) for _ in range(nv)]
+    arrays = [K.array(f"steady{j}", (2, T), nan=False) for j in range(nv)]
+
+    def table(variant, num_columns):
+        hit = [a for v, a in zip(variants, arrays) if v is variant]
+        K.ensure("the array is requested for one of the model's variants, on the span asked for", len(hit) == 1 and num_columns == T)
+        return hit[0] if hit else arrays[0]
+    src = K.obj(_SteadySource, _variants=list(variants), table=K.callable(table))
+    start = K.obj(_D.QuarterlyPeriod, serial=K.int("start", 8000, 8040))
+    end = K.obj(_D.QuarterlyPeriod, serial=K.attr(start, "serial") + T - 1)
+    items = dict(K.items(K.builtin("list", K.call(SBP.generate_steady_items, src, start, end))))
+    K.ensure("one item per quantity", set(items) == {"x", "p"})
+    x = items["x"]
+    xd = K.attr(x, "data")
+    K.ensure("series: span and number of variants", K.And(K.attr(K.attr(x, "start"), "serial") == K.attr(start, "serial"), K.shape(xd) == (T, nv)))
+    for j in range(nv):
+        for t in range(T):
+            K.ensure(f"series: period {t} of variant {j} is that variant's steady path", K.real_eq(K.cell_val(K.cell(xd, t, j)), K.cell_val(K.cell(arrays[j], 0, t))))
+    p = items["p"]
+    vals = [p] if nv == 1 else list(K.items(p))
+    K.ensure("parameter: one value per variant (a bare value for a single variant)", len(vals) == nv)
+    for j in range(min(nv, len(vals))):
+        K.ensure(f"parameter: value of variant {j}", K.real_eq(vals[j], K.cell_val(K.cell(arrays[j], 1, 0))))
+
+
+# ------------------------------------------------------------------------------ the forward expansion cached in a solution
+from irispie.fords import solutions as FS
+
+
+def _mm(A, B):
+    return [[sum(A[i][k] * B[k][j] for k in range(len(B))) for j in range(len(B[0]))] for i in range(len(A))]
+
+
+@contract("C20", targets=["irispie.fords.solutions:_get_solution_expansion"],
+          instances=[(e, f) for e in (0, 1, 2) for f in (0, 1, 2, 3)], cross=4, opts={"max_paths": 2000})
+def forward_expansion_cache_keeps_its_invariant(K, cached, forward):
+    """A solution carries the expansion matrices computed so far (copies and pickles carry them too).  Invariant of that
+    list: entry k is -X J^k Ru.  Whatever its length on entry, a request for `forward` periods returns
+    [P, -X Ru, -X J Ru, ..., -X J^(forward-1) Ru], and leaves the list satisfying the invariant (extended, never
+    shortened) - so a model that has simulated before answers like a fresh copy of itself."""
+    n = 2
+    X = K.array("X", (n, n), nan=False)
+    J = K.array("J", (n, n), nan=False)
+    Ru = K.array("Ru", (n, 1), nan=False)
+    P = K.array("P", (n, 1), nan=False)
+    val = lambda A, r, c: K.cell_val(K.cell(A, r, c))      # noqa: E731
+    Xl = [[val(X, i, j) for j in range(n)] for i in range(n)]
+    Jl = [[val(J, i, j) for j in range(n)] for i in range(n)]
+    Rl = [[val(Ru, i, 0)] for i in range(n)]
+    want = []
+    Jk = [[1 if i == j else 0 for j in range(n)] for i in range(n)]
+    for k in range(max(cached, forward)):
+        m = _mm(_mm(Xl, Jk), Rl)
+        want.append([[-m[i][0]] for i in range(n)])
+        Jk = _mm(Jk, Jl)
+    cache = [K.array_cells(want[k]) for k in range(cached)]
+    out = K.call(FS._get_solution_expansion, cache, P, X, J, Ru, forward)
+    out = list(K.items(out))
+    K.ensure("one matrix for the current period and one per period ahead", len(out) == forward + 1)
+    for i in range(n):
+        K.ensure(f"current period: row {i} of P", K.real_eq(val(out[0], i, 0), val(P, i, 0)))
+    for k in range(min(forward, len(out) - 1)):
+        for i in range(n):
+            K.ensure(f"period +{k + 1}: row {i} of -X J^{k} Ru", K.real_eq(val(out[k + 1], i, 0), want[k][i][0]))
+    after = list(K.items(cache))
+    K.ensure("the cached list is extended to what was asked for, never shortened", len(after) == max(cached, forward))
+    for k in range(min(len(after), len(want))):
+        for i in range(n):
+            K.ensure(f"cache invariant after the call: entry {k}, row {i}", K.real_eq(val(after[k], i, 0), want[k][i][0]))
